@@ -84,6 +84,14 @@ class Sim:
 
         async def wrapper(aid):
             self.tasks[aid] = asyncio.current_task()   # eager factories run us before create_task returns
+            if getattr(self, "residue", False):
+                # this task once swallowed a native cancellation without calling uncancel(): Task.cancelling() stays
+                # at 1 for its whole life (legal asyncio; nothing in the tested code may depend on that counter)
+                asyncio.current_task().cancel()
+                try:
+                    await asyncio.sleep(0)
+                except asyncio.CancelledError:
+                    pass
             try:
                 await actor_fn(aid)
             finally:
